@@ -236,35 +236,38 @@ def judge_c13(part, scn, x):
 
 
 def proposals_on(final_exprs):
-    """Every candidate ddSMT's own Producer derives from ``final_exprs`` with
-    all enabled mutators (the last pass): yields (task name, candidate token
-    sequence) - candidates are rendered by the checking renderer and read back
-    with the reference tokenizer, exactly as the command would see them."""
+    """Every candidate that any enabled mutator proposes for any node of
+    ``final_exprs``: yields (mutator, node index, candidate token sequence).
+    The mutators are taken from the registry and the option flags and are
+    driven by the harness's own loop (ddv/graph.py) - not by the pass list or
+    the Producer, which are part of what is being checked.  Candidates are
+    rendered by the checking renderer and read back with the reference
+    tokenizer, exactly as the command would see them."""
     import os
-    import pickle
-    from ddsmt import nodeio, smtlib, strategy_hierarchical
-    from ddsmt.mutator_utils import apply_simp
-    smtlib.collect_information(final_exprs)
-    # every enabled mutator, straight from the registry and the option
-    # flags - not from the pass list, which is part of what is being checked
-    from ddsmt import mutators
+    from ddsmt import mutators, nodeio
+    from . import graph
+    graph.Meter.install()
     names = [m for grp in mutators.get_all_mutators().values()
              for m in grp[1]]
-    muts, params = mutators.get_mutators(names), {}
-    flag = sched.VEvent(None)
-    prod = strategy_hierarchical.Producer(muts, flag, final_exprs)
+    muts = mutators.get_mutators(names)
     path = os.path.join(sched.workdir(), 'c02-candidate.smt2')
-    for task in prod.generate(0, params):
+    order = {}
+    from ddsmt import nodes
+    for i, n in enumerate(nodes.bfs(final_exprs)):
+        order[n.id] = i + 1
+    for p in graph.hier_proposals(final_exprs, muts):
+        if p.result is None:
+            continue
         try:
-            simp = pickle.loads(task.simp)
-            cand = apply_simp(pickle.loads(task.exprs), simp)
-            nodeio.write_smtlib_for_checking(path, cand)
+            nodeio.write_smtlib_for_checking(path, p.result)
             with open(path) as f:
                 toks = tuple(sexp.strip_comment(t)
                              for t in sexp.token_texts(f.read()))
         except Exception:  # noqa  (ddSMT skips such proposals the same way)
             continue
-        yield task.name, task.nodeid, toks
+        yield (p.mutator + (' (global)' if p.kind == 'global_mutations'
+                            else ''),
+               order.get(p.node.id, 0) if p.node is not None else 0, toks)
 
 
 def judge_c02(part, scn, x):
